@@ -9,6 +9,43 @@ def T(name, pkg, quick, thorough, **kw):
 
 
 PROPS = {
+    "C07": {
+        "level": "exploration",
+        "tests": [
+            T("TestC07RoundTrip", "codec", 1500, 160000, shards=16),
+            T("TestC07ForwardCompat", "codec", 4000, 480000, shards=16),
+            T("TestC07BufferGrowth", "codec", 1, 1, enum=True),
+        ],
+        "known_tests": [T("TestKnownC07", "codec", 1, 1)],
+        "fuzz": [{"pkg": "codec", "name": "FuzzUnmarshal", "time": "120s", "timeout": 600}],
+        "assumptions": [
+            "the generated gogo codec (snapshot/gogosnapshot) is the reference for the published schema",
+            "LMDB content: DBI names and keys are non-empty; transaction ids are non-negative",
+            "proto3 writers do not emit group wire types; uint32 fields carry at most 32 bits",
+        ],
+    },
+    "C08": {
+        "level": "exploration",
+        "tests": [
+            T("TestC08Decode", "codec", 12000, 1600000, shards=16, qshards=4),
+            T("TestC08Corpus", "codec", 1, 1, enum=True),
+            T("TestC08Proportional", "codec", 1, 1, enum=True),
+        ],
+        "fuzz": [{"pkg": "codec", "name": "FuzzUnmarshal", "time": "120s", "timeout": 600},
+                 {"pkg": "codec", "name": "FuzzLoadData", "time": "120s", "timeout": 600}],
+        "assumptions": [
+            "memory bound is a measured allocation bound with a generous constant (24x compressed + 8x decompressed + 4 MiB), not a complexity result",
+            "a hang is reported only when the decode goroutine is seen running inside the snapshot package twice, 1 s apart, after a 20 s limit",
+        ],
+    },
+    "C14": {
+        "level": "exploration",
+        "tests": [
+            T("TestC14Build", "codec", 30000, 3000000, shards=8),
+            T("TestC14Parse", "codec", 60000, 6000000, shards=8),
+        ],
+        "assumptions": ["the header table in docs/schema-native.md is the specification (independent reader in harness/internal/model/header.go)"],
+    },
     "C15": {
         "level": "exploration",
         "tests": [
